@@ -60,7 +60,7 @@ def gen_history(rng, length):
             depth.append(0)
         elif r < 0.90:
             n = rng.choice(SIZES)
-            ops.append({"op": "write", "data": bytes(rng.getrandbits(8) for _ in range(n)).hex()})
+            ops.append({"op": "write", "data": bytes(rng.getrandbits(8) for _ in range(n)).hex() if rng.random() < 0.85 else hexlike(rng).hex()})
         elif r < 0.96:
             ops.append({"op": "delete"})
         else:
@@ -121,6 +121,7 @@ def _run_impl(tmp, file0, tape, ops, nobj, spelled):
         for op in ops:
             k = op["op"]
             out = "ok"
+            probes = {}
             if k in ("enter", "exit", "use") and op["i"] >= len(objs):
                 continue
             if k == "enter":
@@ -150,6 +151,18 @@ def _run_impl(tmp, file0, tape, ops, nobj, spelled):
                     out = {"err": "not-open"}
                 except Exception as e:  # noqa
                     out = {"err": "other:" + type(e).__name__}
+                # side probes (they change nothing): the falsy-but-valid plaintexts and an empty ciphertext, every method
+                from cincoconfig.encryption import SecureValue
+                for label, fn in [("encrypt-empty-bytes-" + m, (lambda m=m: objs[op["i"]].encrypt(b"", m))) for m in ("xor", "aes", "best")] + \
+                                 [("encrypt-empty-text-" + m, (lambda m=m: objs[op["i"]].encrypt("", m))) for m in ("xor", "best")] + \
+                                 [("decrypt-empty-xor", lambda: objs[op["i"]].decrypt(SecureValue("xor", b"")))]:
+                    try:
+                        fn()
+                        probes[label] = "ok"
+                    except TypeError:
+                        probes[label] = "not-open"
+                    except Exception as e:  # noqa
+                        probes[label] = "other:" + type(e).__name__
             elif k == "new":
                 objs.append(KeyFile(spelled or path))
             elif k == "write":
@@ -160,7 +173,7 @@ def _run_impl(tmp, file0, tape, ops, nobj, spelled):
                 set_file("unwritable")
             state = {"file": get_file(), "objs": [{"key": (o._KeyFile__key.hex() if o._KeyFile__key is not None else None),
                                                    "refcount": o._KeyFile__refcount} for o in objs]}
-            obs.append({"out": out, "state": state})
+            obs.append({"out": out, "state": state, "probes": probes})
             done.append(op)
     return obs, done
 
@@ -198,6 +211,10 @@ def oracle(res, case, file0, ops, obs):
                 res.violate("C07:used-while-closed", "encryption succeeded outside an open key context", where)
             if not out["back_ok"] or out["ct"] != (out["key"] * 3)[:128]:
                 res.violate("C07:xor-probe", "XOR probe does not reveal the loaded key", where)
+        if k == "use" and st["objs"][op["i"]]["refcount"] <= 0:
+            leaked = sorted(p for p, r in ob.get("probes", {}).items() if r == "ok")
+            if leaked:
+                res.violate("C07:used-while-closed", "encryption or decryption of an empty value succeeded outside an open key context", dict(where, probes=leaked))
         for o in st["objs"]:
             if o["refcount"] == 0 and o["key"] not in (None, ""):
                 res.violate("C07:key-retained", "key material retained after the outermost context closed (or after a failed open)", where)
@@ -242,8 +259,16 @@ def one(ctx, res, file0, tape, ops, tmp, sample=False):
     return case, obs, done
 
 
+def hexlike(rng):
+    """content that is not 32 bytes but spells 32 bytes in hexadecimal / base64 (as other tools write keys): still the wrong size"""
+    raw = bytes(rng.getrandbits(8) for _ in range(32))
+    import base64
+    return rng.choice([b"0" * 64, b"a" * 64, b"A" * 64 + b"\n", raw.hex().encode(), raw.hex().upper().encode() + b"\n", b" " + raw.hex().encode() + b"\r\n",
+                       base64.b64encode(raw), base64.b64encode(raw) + b"\n", raw + b"\n", b"\n" + raw, raw[:31] + b"\n\n"])
+
+
 def initial_files(rng):
-    return ["absent", "absent", {"data": bytes(rng.getrandbits(8) for _ in range(32)).hex()},
+    return ["absent", "absent", {"data": bytes(rng.getrandbits(8) for _ in range(32)).hex()}, {"data": hexlike(rng).hex()},
             {"data": bytes(rng.getrandbits(8) for _ in range(rng.choice([0, 16, 31, 33]))).hex()}, "unwritable"]
 
 
@@ -259,6 +284,11 @@ def run(ctx, n_quick=400, n_thorough=20000):
         ("absent", [{"op": "enter", "i": 0}, {"op": "enter", "i": 1}, {"op": "use", "i": 1}, {"op": "exit", "i": 0}, {"op": "use", "i": 0},
                     {"op": "exit", "i": 1}, {"op": "enter", "i": 0}, {"op": "use", "i": 0}]),
     ]
+    for content in (b"0" * 64, b"a" * 64, b"ab" * 32 + b"\n", b"0123456789abcdefABCDEF" * 2 + b"0" * 20, bytes(range(32)) + b"\n", b"QUJD" * 11):
+        corpus += [({"data": content.hex()}, [{"op": "enter", "i": 0}, {"op": "use", "i": 0}, {"op": "enter", "i": 1}, {"op": "use", "i": 1}]),
+                   ("absent", [{"op": "write", "data": content.hex()}, {"op": "enter", "i": 0}, {"op": "use", "i": 0}, {"op": "enter", "i": 0}])]
+    corpus += [("absent", [{"op": "use", "i": 0}, {"op": "enter", "i": 0}, {"op": "use", "i": 0}, {"op": "exit", "i": 0, "exc": False}, {"op": "use", "i": 0}]),
+               ({"data": "00" * 5}, [{"op": "enter", "i": 0}, {"op": "use", "i": 0}]), ("unwritable", [{"op": "enter", "i": 0}, {"op": "use", "i": 0}])]
     k1, k2 = "11" * 32, "22" * 32
     corpus += [
         # one object, two sessions, the file replaced by another valid key in between: the second session uses the new key
